@@ -19,7 +19,9 @@ func c11Schema() *hx.Schema {
 		return []*hx.Arg{{Name: "a", Type: hx.Named("In0")}, {Name: "l", Type: hx.ListOf(hx.Named("Int"))}, {Name: "s", Type: hx.Named("String")}, {Name: "b", Type: hx.Named("Boolean")}, {Name: "m", Type: hx.ListOf(hx.Named("In1"))}}
 	}
 	gArgs := func() []*hx.Arg {
-		return []*hx.Arg{{Name: "x", Type: hx.Named("Int")}, {Name: "y", Type: hx.Named("String")}, {Name: "z", Type: hx.ListOf(hx.Named("String"))}, {Name: "e", Type: hx.Named("E0")}}
+		return []*hx.Arg{{Name: "x", Type: hx.Named("Int")}, {Name: "y", Type: hx.Named("String")}, {Name: "z", Type: hx.ListOf(hx.Named("String"))}, {Name: "e", Type: hx.Named("E0")},
+			// scalars whose coerced value differs from the literal as parsed
+			{Name: "q", Type: hx.Named("ID")}, {Name: "fl", Type: hx.Named("Float")}, {Name: "tm", Type: hx.Named("Time")}}
 	}
 	seven := hx.I32(7)
 	tag := hx.Str("t1")
@@ -209,6 +211,15 @@ func (g *c11gen) fieldG(label string) string {
 	}
 	if rapid.IntRange(0, 2).Draw(g.t, label+"e") == 0 {
 		args = append(args, "e: "+rapid.SampledFrom([]string{"RED", "$e"}).Draw(g.t, label+"ev"))
+	}
+	if rapid.IntRange(0, 3).Draw(g.t, label+"q") == 0 {
+		args = append(args, "q: "+rapid.SampledFrom([]string{"7", `"a7"`, "-0", "null"}).Draw(g.t, label+"qv"))
+	}
+	if rapid.IntRange(0, 3).Draw(g.t, label+"fl") == 0 {
+		args = append(args, "fl: "+rapid.SampledFrom([]string{"1", "2.5", "-3", "1e2", "null"}).Draw(g.t, label+"flv"))
+	}
+	if rapid.IntRange(0, 3).Draw(g.t, label+"tm") == 0 {
+		args = append(args, "tm: "+rapid.SampledFrom([]string{`"2020-01-02T03:04:05Z"`, `"2021-05-06T07:08:09.5+02:00"`, "null"}).Draw(g.t, label+"tmv"))
 	}
 	args = g.maybeDefect(args, label)
 	g.nKey++
